@@ -20,7 +20,10 @@ class LoopSpec:
     """
 
     def __init__(self, invariant, heap='havoc', decreases=None, types=None, header=None, lemmas=None, body_check=None,
-                 keeps_owned=False, mk_heap=None, case_facts=None, owned=None, trusted_invariant=False):
+                 keeps_owned=False, mk_heap=None, case_facts=None, owned=None, trusted_invariant=False,
+                 iter_unmodified='prove'):
+        self.iter_unmodified = iter_unmodified    # 'prove': the iterated list is shown unmodified by each iteration;
+                                                  # 'assume': trusted (callbacks do not touch the list being walked)
         self.trusted_invariant = trusted_invariant   # the invariant is assumed at the head but not proved (listed)
         self.owned = owned             # owned(L) -> [(kind, ref, guard)] temporaries the invariant declares unescaped
         self.case_facts = case_facts   # case_facts(L, label) -> (facts of this case, disjunction of all cases) | None
@@ -157,9 +160,9 @@ def inductive_loop(ip, frame, st, spec, seq, tag=None):
         for label, f in _labelled(spec.lemmas(view)):
             ctx.assume(f)
     if spec.owned is not None:
-        for entry in spec.owned(view):
-            if not any(o[0] == entry[0] and o[1].eq(entry[1]) for o in ctx.owned):
-                ctx.owned.append(entry)
+        # the invariant names the temporaries that stay unescaped across iterations; nothing else is carried
+        declared = list(spec.owned(view))
+        ctx.owned = declared
     heap_head = ctx.heap
     owned_head = list(ctx.owned)
     measure0 = spec.decreases(view) if spec.decreases is not None else None
@@ -193,6 +196,11 @@ def inductive_loop(ip, frame, st, spec, seq, tag=None):
         viewb = LoopView(ip, frame, frame.env, ctx.heap, env0, heap0, k)
         for label, f in _labelled(spec.body_check(viewb, ctx.ghost['events'][ev0 + 1:])):
             ctx.oblige(f'{tag}.body.{label}', f if z3.is_expr(f) else z3.BoolVal(bool(f)), kind='loop-body')
+    if iter_ref is not None and spec.heap != 'unchanged' and spec.iter_unmodified == 'assume':
+        ctx.assume(ctx.heap.llen(iter_ref) == heap_head.llen(iter_ref))
+        ia_ = z3.Int('i!itla')
+        ctx.assume(z3.ForAll([ia_], z3.Implies(z3.And(ia_ >= 0, ia_ < heap_head.llen(iter_ref)),
+                                               ctx.heap.lget(iter_ref, ia_) == heap_head.lget(iter_ref, ia_))))
     if spec.keeps_owned:
         for entry in owned_head:
             kind, ref = entry[0], entry[1]
@@ -202,7 +210,9 @@ def inductive_loop(ip, frame, st, spec, seq, tag=None):
     if not spec.trusted_invariant:
         for label, f in _labelled(spec.invariant(view2)):
             ctx.oblige(f'{tag}.preserve.{label}', f, kind='loop-preserve')
-    if iter_ref is not None and spec.heap != 'unchanged' and not spec.trusted_invariant:
+    if False:
+        pass
+    elif iter_ref is not None and spec.heap != 'unchanged' and not spec.trusted_invariant:
         i_ = z3.Int('i!itl')
         ctx.oblige(f'{tag}.iterated-list-unmodified',
                    z3.And(ctx.heap.llen(iter_ref) == heap_head.llen(iter_ref),
